@@ -914,7 +914,7 @@ func genSeq(r *vf.RNG, kind string) row {
 
 func main() {
 	vf.Main("C14", "fault_enumeration", func(c *vf.Ctx) {
-		c.Rule = "scripted loopback collectors for the six OTLP exporters. Table A (enumerated completely): every single-response outcome followed by success - HTTP 200/202/204/400/401/403/404/408/413/429/500/501/502/503/504, Retry-After, connection reset, partial success, retry disabled; all 17 gRPC codes with and without RetryInfo, partial success, retry disabled. Table B (seeded): sequences of 1-6 outcomes mixing retryable, throttled, terminal and network outcomes under retry configs {disabled, unbounded, 50 ms, 2 s}, gzip on/off. Table C: cancellation before the first attempt, while the collector holds the request, during the wait for a 5 s throttle hint, and exporter Shutdown during that wait. distinct = distinct (exporter, table, deciding outcome, attempts) signatures"
+		c.Rule = "scripted loopback collectors for the six OTLP exporters. Table A (enumerated completely): every single-response outcome followed by success - HTTP 200/202/204/400/401/403/404/408/413/429/500/501/502/503/504, Retry-After, connection reset, partial success, retry disabled; all 17 gRPC codes with and without RetryInfo, partial success, retry disabled. Table B (seeded): sequences of 1-6 outcomes mixing retryable, throttled, terminal and network outcomes under retry configs {disabled, unbounded, 50 ms, 2 s}, gzip on/off. Table C: cancellation before the first attempt, while the collector holds the request, during the wait for a 5 s throttle hint, and exporter Shutdown during that wait; partial success with count only / message only; RetryInfo with zero or unset delay; attempts answered after 300 ms against a 1 s budget; 90 s hints under an unbounded budget. distinct = distinct (exporter, table, deciding outcome, attempts) signatures"
 		c.Assume = []string{"lower bounds on waits are hard (timers never fire early); attempt counts are decided on the logical budget (sum of hints vs MaxElapsedTime) with a factor-2 margin where real elapsed time matters", "a closed connection may surface as a temporary error (retried) or as EOF (terminal): both are accepted", "backoff InitialInterval 1 ms so that backoff is negligible next to throttle hints"}
 		otel.SetErrorHandler(theHandler)
 		otel.SetLogger(logr.Discard())
